@@ -87,6 +87,8 @@ class Sys(e1.TimedSys):
                     cur.remove(h[2])
             for e in self.endpoints:
                 acts.append(("unsub", g, e) if e in cur else ("sub", g, e))
+                if e not in cur and not held:
+                    acts.append(("unsub-unknown", g, e))
             evs = GROUP_EVENTS[g]
             subsets = [evs] if len(evs) == 1 else [(evs[0],), (evs[1],), evs, ()]
             for sset in subsets:
@@ -116,6 +118,14 @@ class Sys(e1.TimedSys):
             _, g, e = act
             self.service.client_unsubscribed(self._subscription(g, [EP[e]]), SRC)
             m.subs[g].remove(e)
+        elif act[0] == "unsub-unknown":
+            # an unsubscribe for an endpoint that is not subscribed (a late or repeated StopSubscribe):
+            # must not raise and must not disturb the other subscribers
+            _, g, e = act
+            before = canon.roots_key(self.loop, self.roots())
+            self.service.client_unsubscribed(self._subscription(g, [EP[e]]), SRC)
+            if canon.roots_key(self.loop, self.roots()) != before:
+                self.viol("unknown-unsubscribe", "state-changed", f"unsubscribing {e}, which is not subscribed to group {g}, changed state")
         elif act[0] == "set":
             old = m.values[act[1]]
             v = bytes([act[1], 1 - old[1]]) if len(old) > 1 else bytes([act[1], 0])
